@@ -224,6 +224,23 @@ def run(prog, chk):
                     sites.append((gf, call))
             else:
                 sites.append((gf, call))
+        # … and only after every user destructor of the chain has run: a destructor body can still use `this.q`, and a qubit it allocates
+        # meanwhile would be handed the index released under its feet (two live handles on one simulator qubit)
+        exec_name = R.ev_method('exec').name
+        for gf, call in sites:
+            tf_ = top_of(gf) if gf.kind == 'lambda' else gf
+            if gf.kind == 'lambda' and not any(y is call for y in SX.walk(tf_.body, into_lambdas=False)):
+                continue
+            g_ = prog.cfg(gf)
+            cn_ = [x for x in g_.nodes if x.kind == 'call' and SX.is_node(x.e) and any(y is call for y in SX.walk(x.e, into_lambdas=False))]
+            if not cn_:
+                continue
+            later = g_.reachable(cn_)
+            runs = [x for x in g_.nodes if x.kind == 'call' and SX.is_node(x.e) and x.id in later and any(
+                y.get('k') == 'mcall' and y.get('callee') == exec_name for y in SX.walk(x.e, into_lambdas=False))]
+            chk.ob('R03.4', gf, call.get('ln', gf.ln), not runs,
+                   'a qubit field is released only after every user destructor of the object has run (a destructor body still reachable after the release can use the field, and '
+                   'anything it allocates may be given the released index: two handles on one qubit)', key='release-after-destructors:%s' % gf.short)
         for gf, call in sites:
             loops = [s_ for s_ in enclosing_stmts(gf.body, call, into_lambdas=(gf.kind == 'lambda')) if s_['k'] in ('for', 'forrange', 'while', 'do')]
             detail = []
